@@ -262,10 +262,10 @@ func (w *FileWriter) generateFieldSchemaCode(field tagparser.FieldInfo, structNa
 			b.WriteString(code)
 		}
 	}
-	if !field.Required && field.Type.Kind() != reflect.Slice {
-		// .Optional() turns the output type of a slice schema into *[]T, which
-		// cannot be stored in a []T field; FromStruct applies it to pointer
-		// fields only.
+	if !field.Required && field.Type.Kind() != reflect.Slice && field.Type.Kind() != reflect.Map {
+		// .Optional() turns the output type of a slice or record schema into
+		// *[]T / *map[string]V, which cannot be stored in the field;
+		// FromStruct applies it to pointer fields only.
 		b.WriteString(".Optional()")
 	}
 	return b.String(), nil
@@ -379,6 +379,10 @@ func baseConstructor(typeName, structName string) string {
 			// *[]T: the slice schema accepts a pointer to a slice
 			return baseConstructor(base, structName)
 		}
+		if strings.HasPrefix(base, "map[") {
+			// *map[K]V: the record schema whose output is the pointer
+			return "gozod.RecordPtr" + strings.TrimPrefix(baseConstructor(base, structName), "gozod.Record")
+		}
 		return fmt.Sprintf("gozod.FromStruct[%s]()", base)
 	}
 
@@ -394,14 +398,16 @@ func baseConstructor(typeName, structName string) string {
 
 	if strings.HasPrefix(typeName, "map[") {
 		if idx := mapKeyEnd(typeName); idx != -1 && idx < len(typeName)-1 {
+			// gozod.Record[K, V any](keySchema any, valueSchema core.ZodType[V]):
+			// both type arguments and the key schema have to be written (K occurs
+			// in no parameter), and the value schema must parse to exactly V.
 			valType := typeName[idx+1:]
-			clean := strings.TrimPrefix(valType, "*")
-			if structName != "" && clean == structName {
-				return fmt.Sprintf("gozod.Record(gozod.Lazy(func() gozod.ZodType[any] { return gozod.FromStruct[%s]() }))", clean)
-			}
-			return fmt.Sprintf("gozod.Record(%s)", baseConstructor(valType, structName))
+			return fmt.Sprintf("gozod.Record[string, %s](gozod.String(), %s)", valType, typedConstructor(valType, structName))
 		}
-		return "gozod.Record(gozod.Any())"
+		return "gozod.Record[string, any](gozod.String(), gozod.Any())"
+	}
+	if typeName == "any" {
+		return "gozod.Any()"
 	}
 
 	if basicTypes[typeName] {
@@ -417,6 +423,31 @@ func baseConstructor(typeName, structName string) string {
 		return fmt.Sprintf("gozod.FromStruct[%s]()", typeName)
 	}
 	return "gozod.Any()"
+}
+
+// typedConstructor returns a constructor whose schema parses to exactly the Go
+// type typeName, which the value schema of gozod.Record has to (baseConstructor
+// validates a *T field with the schema of T).
+func typedConstructor(typeName, structName string) string {
+	if base, ok := strings.CutPrefix(typeName, "*"); ok {
+		switch {
+		case basicTypes[base]:
+			return strings.TrimSuffix(basicTypeConstructor(base), "()") + "Ptr()"
+		case base == "time.Time":
+			return "gozod.TimePtr()"
+		case strings.HasPrefix(base, "[]"):
+			return "gozod.SlicePtr" + strings.TrimPrefix(baseConstructor(base, structName), "gozod.Slice")
+		case strings.HasPrefix(base, "map["):
+			return "gozod.RecordPtr" + strings.TrimPrefix(baseConstructor(base, structName), "gozod.Record")
+		}
+		// FromStruct builds its schema by reflection and detects cycles
+		// itself, so a reference to the enclosing struct needs no Lazy here.
+		return fmt.Sprintf("gozod.FromStructPtr[%s]()", base)
+	}
+	if structName != "" && typeName == structName {
+		return fmt.Sprintf("gozod.FromStruct[%s]()", typeName)
+	}
+	return baseConstructor(typeName, structName)
 }
 
 // mapKeyEnd returns the index of the bracket that closes the key type of a
